@@ -10,10 +10,23 @@ pub ghost struct Net {
     pub last_success: bool,                 // status class of the latest response
     pub last_body: Seq<char>,               // body of the latest response
 }
+// one observable effect on the file system / child processes, in program order
+pub ghost enum FsEvent {
+    Hook { ty: int, data: int },                       // hooks::call(.., data, ty): ty = hook_type_id, data = opaque identity of the hook data
+    Open { path: Seq<char>, mode: u32, created: bool, truncated: bool },
+    Write { path: Seq<char> },
+    Chown { path: Seq<char>, uid: Option<u32>, gid: Option<u32> },
+}
+pub ghost struct Fs {
+    pub files: Map<Seq<char>, Seq<u8>>,     // regular files that exist -> content
+    pub modes: Map<Seq<char>, u32>,         // mode argument of the open(2) that created the file
+    pub events: Seq<FsEvent>,
+}
 pub tracked struct World {
     pub ghost clock: int,             // the latest instant observed (nanoseconds)
     pub ghost admissions: Seq<int>,   // every instant ever pushed on the limiter's log (never pruned)
     pub ghost net: Net,
+    pub ghost fs: Fs,
 }
 }
 pub mod vtime {
@@ -25,13 +38,13 @@ pub mod vtime {
     #[verifier::external_body]
     pub fn now(Tracked(w): Tracked<&mut World>) -> (r: Instant)
         ensures inst(r) >= old(w).clock, final(w).clock == inst(r), final(w).admissions == old(w).admissions,
-                final(w).net == old(w).net
+                final(w).net == old(w).net, final(w).fs == old(w).fs
     { Instant::now() }
     // tokio::time::sleep(d).await  (T-ASYNC): returns after at least d
     #[verifier::external_body]
     pub fn sleep(d: Duration, Tracked(w): Tracked<&mut World>)
         ensures final(w).clock >= old(w).clock + dur(d), final(w).admissions == old(w).admissions,
-                final(w).net == old(w).net
+                final(w).net == old(w).net, final(w).fs == old(w).fs
     { }
     // comparison operators on Instant (rule T-CMP): the operator is kept, only its spelling changes
     pub open spec fn s_inst_gt(a: Instant, b: Instant) -> bool { inst(a) > inst(b) }
